@@ -273,6 +273,41 @@ def r15(ctx, rep):
     else:
         rep.bad("R1.5", "project")
         rep.finding("R1.5", pr, "return of project", pr.node.lineno, "project no longer clips to [xl, xu]")
+    # the projection is only applied when the bounds are flagged consistent:
+    # the flag must accept lb == ub (fixed variables), i.e. compare with <=
+    bc = ctx.repo.cls("BoundConstraints")
+    cmp_found = 0
+    for g in list(bc.methods.values()) + list(bc.getters.values()):
+        for node in ast.walk(g.node):
+            if isinstance(node, ast.Compare) and len(node.ops) == 1:
+                l, r = node.left, node.comparators[0]
+                try:
+                    inl_g = expander(ctx, g)
+                    l, r = inl_g.expand(l, node), inl_g.expand(r, node)
+                except Exception:
+                    pass
+                lo_l, hi_l = mentions(l, "xl", "_xl", "lb"), mentions(l, "xu", "_xu", "ub")
+                lo_r, hi_r = mentions(r, "xl", "_xl", "lb"), mentions(r, "xu", "_xu", "ub")
+                if (lo_l and hi_r and not hi_l and not lo_r) or (hi_l and lo_r and not lo_l and not hi_r):
+                    # used for the consistency flag?
+                    st = node
+                    while getattr(st, "_parent", None) is not None and not isinstance(st, ast.stmt):
+                        st = st._parent
+                    if not ((isinstance(st, ast.Assign) and any(mentions(t, "is_feasible") for t in st.targets)) or (isinstance(st, ast.Return) and g.name == "is_feasible")):
+                        continue
+                    cmp_found += 1
+                    op = type(node.ops[0]).__name__
+                    good = (lo_l and op == "LtE") or (hi_l and op == "GtE")
+                    desc = f"{g.local}:{node.lineno} consistency of the bounds `{norm(node)}`"
+                    if good:
+                        rep.ok("R1.5", desc + " accepts lb == ub")
+                    else:
+                        rep.bad("R1.5", desc)
+                        rep.finding("R1.5", g, norm(node), node.lineno,
+                                    "the consistency flag of the bounds must hold for lb <= ub (a fixed variable has lb == ub): with a strict comparison the bounds are flagged inconsistent, "
+                                    "the projection in build_x becomes the identity and rounding can leave the box")
+    if cmp_found < 1:
+        raise AnalysisError("BoundConstraints: the consistency test of the bounds (lb <= ub) was not found")
     # fixed values are inside their bounds
     fv = [n for n in ast.walk(pinit.node) if isinstance(n, ast.Assign) and any(isinstance(t, ast.Attribute) and t.attr == "_fixed_val" for t in n.targets)]
     if fv:
